@@ -46,6 +46,8 @@ where
         let mut elements = vec![];
         let mut last_non_blank = None;
         let mut common_indent = None;
+        // the common indent of the lines that are kept (up to the last non-blank element)
+        let mut kept_common_indent = None;
 
         self.skip_blank_inline();
 
@@ -63,6 +65,7 @@ where
                 }
                 let exp = self.get_placeable()?;
                 last_non_blank = Some(elements.len());
+                kept_common_indent = common_indent;
                 elements.push(PatternElementPlaceholders::Placeable(exp));
                 text_element_role = TextElementPosition::Continuation;
             } else {
@@ -115,6 +118,7 @@ where
                                 .is_empty()
                         {
                             last_non_blank = Some(elements.len());
+                            kept_common_indent = common_indent;
                         }
                         // A whitespace-only line contributes only its line break.
                         let (element_start, element_indent) = if text_element_role
@@ -155,7 +159,7 @@ where
                     }
                     PatternElementPlaceholders::TextElement(start, end, indent, role) => {
                         let start = if role == TextElementPosition::LineStart {
-                            common_indent.map_or_else(
+                            kept_common_indent.map_or_else(
                                 || start + indent,
                                 |common_indent| start + std::cmp::min(indent, common_indent),
                             )
